@@ -1,22 +1,11 @@
-# Registry of monitors: property -> units (translation units), coverage floors, evidence text.
-REGISTRY = {
-  "C01": {
-    "level": "exploration",
-    "units": [{"name": "c01_theta_update", "src": "c01_theta_update.cpp"}],
-    "rule": ("case = random builder configuration (lg_k, resize factor, p, seed) x random op sequence over 1-3 live "
-             "update_theta_sketch objects (typed updates incl. -0.0/NaN/empty string, trim, reset, copy, copy/move assign); "
-             "after ops the full read-out is compared with a shadow set of reference MurmurHash3 hashes. "
-             "distinct_nontrivial = distinct (theta, retained, lg_k, |seen|) state signatures observed"),
-    "floor": {"rebuilt_sketches": 1, "trim_effective": 1, "reset": 1, "copy": 1, "special_double": 1,
-              "ignored_empty_string": 1, "nonempty_zero_retained": 1, "exact_estimates": 1,
-              "resized_rf1": 1, "resized_rf2": 1, "resized_rf3": 1},
-    "technique": "runtime reference-model monitor (shadow hash set) under ASan+UBSan",
-    "level_text": "Runtime monitoring: thousands of generated op-sequences per run on the real update_theta_sketch, whole observable state compared with an independent hash-threshold model after every call, inside an ASan+UBSan build. Held on the executions listed in evidence, nothing more.",
-    "level_note": "Trusts the harness reference MurmurHash3 (validated by KATs and against the library in setup and C10) and that generated configurations (lg_k 5..17) are representative of lg_k up to 26.",
-    "assumptions": ["reference MurmurHash3_x64_128 in harness/vf/refhash.hpp is correct (KATs + cross-check in C10)",
-                    "lg_k > 17 is not generated (memory/time); hash value 0 never occurs"],
-  },
-}
-
+# Registry of monitors: one JSON fragment per property in harness/reg/<id>.json
+#   {level, units:[{name, src, flags?, shards?, wall_quick?, wall_thorough?}], rule, floor / floor_quick / floor_thorough,
+#    assumptions, technique, level_text, level_note}
+import json, os, glob
+_D = os.path.join(os.path.dirname(os.path.abspath(__file__)), "reg")
+REGISTRY = {}
+for _f in sorted(glob.glob(os.path.join(_D, "C*.json"))):
+    with open(_f) as _h:
+        REGISTRY[os.path.basename(_f)[:-5]] = json.load(_h)
 NOT_APPLICABLE = {}
 HOOK_COMMITS = ["c2e274d"]
